@@ -124,7 +124,7 @@ structure N where
   q : List Msg := []                  -- notifications the current loop pass is serving
   qn : List Msg := []                 -- notifications for the next pass
   qlate : List Msg := []              -- caused by deferred tasks (connection objects deleted, sockets closed at the end of a pass)
-  lastFds : List Fd := []             -- descriptors the last pass reported, in order
+  lastFds : List Fd := []             -- epoll's ready list: the descriptors the last pass reported, then the ones woken since
   now : Nat := 0
   tick : Nat := 0
   rawLink : Option Nat := none
@@ -156,6 +156,42 @@ def N.setClient (n : N) (i : Nat) (c : Client) : N :=
   if i = 0 then { n with c0 := c } else if i = 1 then { n with c1 := c } else n
 def N.link (n : N) (l : Nat) : Link := n.links.getD l { who := .raw, cOpen := false, sOpen := false }
 def N.setLink (n : N) (l : Nat) (k : Link) : N := { n with links := n.links.set l k }
+def N.cn (n : N) : Who → Cn
+  | .cl i => (n.client i).cn
+  | _ => n.kn
+def N.setCn (n : N) (w : Who) (c : Cn) : N :=
+  match w with
+  | .cl i => n.setClient i { n.client i with cn := c }
+  | _ => { n with kn := c }
+
+def Msg.isSent : Msg → Bool
+  | .sentC _ | .sentS _ => true
+  | _ => false
+
+/-- the descriptor a notification is reported on -/
+def Msg.fd (n : N) : Msg → Fd
+  | .accept => .listen
+  | .toS l _ | .sentS l | .eofS l => .s l
+  | .toC l _ | .sentC l | .eofC l => .c l
+  | .writable w => match (n.cn w).pend with | some l => .k l | none => .listen
+
+/-- is the descriptor in the epoll set (does a wake-up put it on the ready list)? -/
+def N.registered (n : N) : Fd → Bool
+  | .listen => true
+  | .k _ => true
+  | .s l => (n.link l).tok.isSome && n.alive.contains (l, true)
+  | .c l => match (n.link l).who with
+      | .cl _ => n.alive.contains (l, false)
+      | _ => true
+
+/-- a wake-up: the descriptor goes to the tail of epoll's ready list unless it is already on it -/
+def N.wake (n : N) (f : Fd) : N :=
+  if n.registered f && !n.lastFds.contains f then { n with lastFds := n.lastFds ++ [f] } else n
+
+/-- a descriptor was just added to the epoll set: if something is pending on it, it is ready at once -/
+def N.wakeIfPending (n : N) (f : Fd) : N :=
+  if n.qn.any (fun m => m.fd n == f) then n.wake f else n
+
 /-- bytes written to one socket within one loop pass are read by the peer in one go -/
 def mergeData (q : List Msg) (m : Msg) : Option (List Msg) :=
   match m with
@@ -167,19 +203,15 @@ def mergeData (q : List Msg) (m : Msg) : Option (List Msg) :=
       if q.any (fun x => match x with | .toC l' _ => l' = l | _ => false) then
         some (q.map fun x => match x with | .toC l' d0 => if l' = l then .toC l' (d0 ++ d) else x | _ => x)
       else none
+  -- several sends before the next pass arm the write event once: one send-complete
+  | .sentS _ => if q.contains m then some q else none
+  | .sentC _ => if q.contains m then some q else none
   | _ => none
 
-def N.push (n : N) (m : Msg) : N := { n with qn := (mergeData n.qn m).getD (n.qn ++ [m]) }
+def N.push (n : N) (m : Msg) : N :=
+  ({ n with qn := (mergeData n.qn m).getD (n.qn ++ [m]) }).wake (m.fd n)
 def N.pushLate (n : N) (m : Msg) : N := { n with qlate := n.qlate ++ [m] }
 def N.ev (n : N) (e : Ev) : N := { n with hist := n.hist ++ [e] }
-def N.cn (n : N) : Who → Cn
-  | .cl i => (n.client i).cn
-  | _ => n.kn
-def N.setCn (n : N) (w : Who) (c : Cn) : N :=
-  match w with
-  | .cl i => n.setClient i { n.client i with cn := c }
-  | _ => { n with kn := c }
-
 /-- delete a TcpConnection object; deleting the one whose callback is executing is the defect -/
 def N.free (n : N) (o : Nat × Bool) (deferred : Bool) : N :=
   { n with alive := n.alive.erase o, freed := n.freed ++ [o],
@@ -427,7 +459,7 @@ def svAccept (n : N) (l : Nat) (rest : List Nat) : N :=
   let n := { n with backlog := rest,
                     sv := { n.sv with issued := t + 1, table := n.sv.table ++ [(t, l)] },
                     alive := n.alive ++ [(l, true)] }
-  let n := n.setLink l { k with tok := some t, held := [] }
+  let n := (n.setLink l { k with tok := some t, held := [] }).wakeIfPending (.s l)
   -- next pass: the listening socket is reported first, then this connection's readability;
   -- what the connected callback sends completes (write event) after that
   let n := if rest ≠ [] then n.push .accept else n
@@ -460,7 +492,7 @@ def handle (cfg : Cfg) (n : N) : Msg → N
           else
           -- onSocketWritable, success: back to Inited, hand the new TcpConnection to the owner
           let n := n.setCn w { c with st := .inited, pend := none }
-          let n := { n with alive := n.alive ++ [(l, false)] }
+          let n := ({ n with alive := n.alive ++ [(l, false)] }).wakeIfPending (.c l)
           match w with
           | .cl i =>
               let n := n.setClient i { n.client i with st := .connected, link := some l }
@@ -530,17 +562,6 @@ def handle (cfg : Cfg) (n : N) : Msg → N
           else n
       | .raw => if n.rawHold then { n with rawEofHeld := true } else { n with rawEof := true }
       | .kn => n
-
-def Msg.isSent : Msg → Bool
-  | .sentC _ | .sentS _ => true
-  | _ => false
-
-/-- the descriptor a notification is reported on -/
-def Msg.fd (n : N) : Msg → Fd
-  | .accept => .listen
-  | .toS l _ | .sentS l | .eofS l => .s l
-  | .toC l _ | .sentC l | .eofC l => .c l
-  | .writable w => match (n.cn w).pend with | some l => .k l | none => .listen
 
 /-- what one loop pass serves, in epoll's order: descriptors reported by the previous pass keep their
 place at the head of the ready list, the others follow in the order they became ready; for one
@@ -716,9 +737,9 @@ def stepQ (cfg : Cfg) (n : N) (op : Op) : N :=
   -- the passes that found nothing to do have emptied epoll's ready list
   if op.okIn n then
     -- the first pass serves what the call itself caused; the tasks it deferred run at the end of that pass
-    let n1 := (step cfg n op).1
-    drain cfg drainFuel { n1 with q := (passOrder { n1 with lastFds := [] } n1.qn).2, qn := [],
-                                  lastFds := (passOrder { n1 with lastFds := [] } n1.qn).1 }
+    -- (the passes that found nothing to do have emptied epoll's ready list)
+    let n1 := (step cfg { n with lastFds := [] } op).1
+    drain cfg drainFuel { n1 with q := (passOrder n1 n1.qn).2, qn := [], lastFds := (passOrder n1 n1.qn).1 }
   else n
 
 def run (cfg : Cfg) (n : N) (ops : List Op) : N := ops.foldl (stepQ cfg) n
